@@ -5,6 +5,7 @@ import abc
 
 from numpy.random import choice
 
+from jaqalpaq.error import JaqalError
 from jaqalpaq.core.result import ExecutionResult, Readout
 from jaqalpaq.core.result import ProbabilisticSubcircuit
 from jaqalpaq.core.algorithm.walkers import TraceVisitor, DiscoverSubcircuits
@@ -45,10 +46,13 @@ class AbstractBackend:
 
         registers = circ.fundamental_registers()
 
+        if not registers:
+            raise JaqalError("The circuit has no register.")
+
         try:
             (register,) = registers
         except ValueError:
-            raise NotImplementedError("Multiple fundamental registers unsupported.")
+            raise JaqalError("Multiple fundamental registers unsupported.")
 
         return register.size
 
